@@ -347,7 +347,7 @@ func (e *handlerStore[T]) off(handler ...T) {
 		for _, h := range slice {
 			remove := false
 			for _, _h := range handler {
-				if h == _h {
+				if sameHandler(h, _h) {
 					remove = true
 					break
 				}
@@ -360,6 +360,22 @@ func (e *handlerStore[T]) off(handler ...T) {
 	}
 	e.funcs = filter(e.funcs)
 	e.funcsOnce = filter(e.funcsOnce)
+}
+
+// Handlers are stored as pointers to funcs, and the Off* methods can only
+// pass pointers to copies of the funcs they are given. So two handlers are
+// the same when they point to the same function (this is also how
+// eventHandlerStore.off compares).
+func sameHandler[T comparable](a, b T) bool {
+	if a == b {
+		return true
+	}
+	av, bv := reflect.ValueOf(a), reflect.ValueOf(b)
+	if av.Kind() != reflect.Ptr || bv.Kind() != reflect.Ptr || av.IsNil() || bv.IsNil() {
+		return false
+	}
+	av, bv = av.Elem(), bv.Elem()
+	return av.Kind() == reflect.Func && bv.Kind() == reflect.Func && av.Pointer() == bv.Pointer()
 }
 
 func (e *handlerStore[T]) offAll() {
